@@ -2016,6 +2016,8 @@ class t2data(object):
         self.convert_AUTOUGH2_parameters_to_TOUGH2(warn, MP)
         self.simulator = ''
         self.delete_section('SIMUL')
+        # TOUGH2 has no extra precision file: all sections go in the main file
+        self.extra_precision = False
         self.convert_AUTOUGH2_generators_to_TOUGH2(warn)
         self.convert_short_to_history()
 
